@@ -17,7 +17,7 @@ META = {
     "level": "proof",
     "rule": "documents x formats {json, xml, provn, rdf} x local file names (relative, nested, spaces, non-ASCII, '#', '?', ';', ':') "
             "x {destination absent, present} x a failure injected at every successive write call of the temporary stream, at its "
-            "close and at the final move (plus the fault-free run); after each run the directory listing and every file's bytes are "
+            "close and at the final move (plus the fault-free run), and, with nothing patched, under an operating-system file size limit (RLIMIT_FSIZE: the kernel takes only the first k bytes); after each run the directory listing and every file's bytes are "
             "compared with the all-or-nothing expectation and with the Lean step machine. Non-trivial = a run with an injected fault "
             "or a name containing URL syntax characters; distinct by (name, format, fault, present).",
     "assumptions": ["A-EXT: os.rename within one filesystem is atomic and mkstemp returns a fresh name; durability (fsync) and "
@@ -125,6 +125,40 @@ def run_once(doc, fmt, workdir, tmpdir, name, present, fault, n_writes):
     return before, snapshot(workdir), sorted(os.listdir(tmpdir)), exc, plan["calls"]
 
 
+def run_fsize(doc, fmt, workdir, tmpdir, name, present, limit):
+    """the same write with nothing patched, under a real operating-system limit: RLIMIT_FSIZE makes the kernel accept only the
+    first `limit` bytes of any file (a short write, then EFBIG), as a full disk or a quota would"""
+    import resource
+    import signal
+    for d in (workdir, tmpdir):
+        shutil.rmtree(d, ignore_errors=True)
+        os.makedirs(d)
+    os.makedirs(os.path.join(workdir, "sub", "dir"), exist_ok=True)
+    open(os.path.join(workdir, "bystander.txt"), "wb").write(b"bystander")
+    if present:
+        open(os.path.join(workdir, name), "wb").write(OLD)
+    before = snapshot(workdir)
+    real_tempdir = tempfile.tempdir
+    cwd = os.getcwd()
+    exc = None
+    old_handler = signal.signal(signal.SIGXFSZ, signal.SIG_IGN)
+    soft, hard = resource.getrlimit(resource.RLIMIT_FSIZE)
+    try:
+        os.chdir(workdir)
+        tempfile.tempdir = tmpdir
+        resource.setrlimit(resource.RLIMIT_FSIZE, (limit, hard))
+        try:
+            doc.serialize(name, format=fmt)
+        except Exception as e:  # noqa
+            exc = e
+    finally:
+        resource.setrlimit(resource.RLIMIT_FSIZE, (soft, hard))
+        signal.signal(signal.SIGXFSZ, old_handler)
+        tempfile.tempdir = real_tempdir
+        os.chdir(cwd)
+    return before, snapshot(workdir), sorted(os.listdir(tmpdir)), exc
+
+
 def run(ctx, use_model=True):
     g = Gen(ctx.seed * 1000003 + 17)
     fails = []
@@ -159,6 +193,27 @@ def run(ctx, use_model=True):
                             fails.append(Failure("corr", None, "fault injection: serialize(path) no longer writes through os.fdopen/shutil.move as "
                                                  "modelled; no fault point can be exercised", {"name": name, "format": fmt}))
                             return fails
+                        # operating-system level: the file system takes only the first `limit` bytes
+                        size = len(expected_bytes)
+                        limits = sorted({0, 1, size // 3, size // 2, size - 1}) if ctx.tier == "thorough" else sorted({0, size // 2})
+                        for limit in [x for x in limits if 0 <= x < size]:
+                            before, after, leftovers, exc = run_fsize(doc, fmt, workdir, tmpdir, name, present, limit)
+                            ctx.evaluations += 1
+                            ctx.count("os-file-size-limit")
+                            case = {"name": name, "format": fmt, "present": present, "fsize_limit": limit, "size": size}
+                            ctx.nontrivial(case)
+                            key = os.path.normpath(name)
+                            got, old = after.get(key), before.get(key)
+                            if exc is None:
+                                fails.append(Failure("oracle", None, "the file system accepted only %d of %d bytes and serialize() reported nothing" % (limit, size), case))
+                            if got != old:
+                                fails.append(Failure("oracle", None, "with room for %d of %d bytes the destination is neither its previous content nor absent (%s bytes)" % (
+                                    limit, size, None if got is None else len(got)), case))
+                            if leftovers:
+                                fails.append(Failure("oracle", None, "temporary file left behind: %r" % (leftovers,), case))
+                            for k, v in before.items():
+                                if k != key and after.get(k) != v:
+                                    fails.append(Failure("oracle", None, "bystander file %r changed" % k, case))
                         faults = [None] + list(range(1, n_writes + 3))
                         if ctx.tier != "thorough" and len(faults) > 6:
                             faults = [None, 1, n_writes, n_writes + 1, n_writes + 2] + g.rng.sample(range(2, n_writes), min(2, max(0, n_writes - 2)))
@@ -234,6 +289,20 @@ def replay(ctx, case):
     fails = []
     try:
         workdir, tmpdir = os.path.join(base, "work"), os.path.join(base, "tmp")
+        if "fsize_limit" in case:
+            # the document of the original run is not kept: take room for half of this document's bytes
+            buf = io.BytesIO()
+            doc.serialize(buf, format=case["format"])
+            limit = min(case["fsize_limit"], len(buf.getvalue()) // 2)
+            before, after, leftovers, exc = run_fsize(doc, case["format"], workdir, tmpdir, case["name"], case["present"], limit)
+            key = os.path.normpath(case["name"])
+            if exc is None:
+                fails.append(Failure("oracle", case.get("signature"), "short write not reported", case))
+            if after.get(key) != before.get(key):
+                fails.append(Failure("oracle", case.get("signature"), "destination changed by a failed write", case))
+            if leftovers:
+                fails.append(Failure("oracle", case.get("signature"), "temporary file left behind", case))
+            return fails
         before, after, leftovers, exc, n = run_once(doc, case["format"], workdir, tmpdir, case["name"], case["present"], case["fault"], case["n_writes"])
         key = os.path.normpath(case["name"])
         if leftovers:
